@@ -187,3 +187,23 @@ func (c *Conn) ClosedCount() int {
 	defer c.mu.Unlock()
 	return c.Closed
 }
+
+// WaitPub waits until a publication at index >= from satisfies pred and returns
+// it with its index; ok is false on timeout (given as a number of milliseconds).
+func (c *Conn) WaitPub(from int, pred func(Pub) bool, timeoutMs int) (Pub, int, bool) {
+	deadline := timeNow().Add(msDuration(timeoutMs))
+	c.mu.Lock()
+	defer c.mu.Unlock()
+	i := from
+	for {
+		for ; i < len(c.Pubs); i++ {
+			if pred(c.Pubs[i]) {
+				return c.Pubs[i], i, true
+			}
+		}
+		if !timeNow().Before(deadline) {
+			return Pub{}, -1, false
+		}
+		waitCond(c.cond, deadline)
+	}
+}
